@@ -191,6 +191,10 @@ func (c *Ctx) Cases(n int, desc func(i int) string, fn func(i int, k *K)) {
 	}
 }
 
+// CaseStart, when set, runs at the start of every case (per-case environment switches that
+// are a pure function of the case index).
+var CaseStart func(k *K)
+
 func (c *Ctx) runCase(idx int64, desc string, fn func(k *K)) {
 	k := &K{c: c, Idx: idx, Desc: desc}
 	k.RNG = NewRNG(c.Seed, fmt.Sprintf("%s/%d", c.Spec.ID, idx))
@@ -225,6 +229,9 @@ func (c *Ctx) runCase(idx int64, desc string, fn func(k *K)) {
 				k.Violation("panic:"+topLibFrame(st), fmt.Sprintf("library panicked: %v", r), map[string]any{"stack": trimStack(st)})
 			}
 		}()
+		if CaseStart != nil {
+			CaseStart(k)
+		}
 		fn(k)
 	}()
 	c.curStart.Store(0)
